@@ -2,5 +2,7 @@
 EXTENDS Poller
 Script2 == (1 :> <<"H", "L">>) @@ (2 :> <<"L", "H">>)
 Script3 == (1 :> <<"H", "H", "L">>) @@ (2 :> <<"L", "H">>) @@ (3 :> <<"L">>)
+\* a low-priority task that answers Shutdown with another one queued behind it (C06), next to ordinary traffic
+ScriptS == (1 :> <<"H", "LS", "L">>) @@ (2 :> <<"H">>)
 ScriptQ == (1 :> <<"H", "H">>) @@ (2 :> <<"L">>)
 =============================================================================
